@@ -26,6 +26,24 @@ provenance `not args.no_warnings`. C17.4: user.confirm returns True only on
 equality of input() with `key` (default 'y'); check_and_confirm_overwrite
 prompts iff os.path.isfile(path) and returns the prompt's result.
 """
+MANIFEST = dict(
+    text="Decides, for every file-creating call site in evo/ (complete "
+         "inventory from the library effect table), that it is unreachable "
+         "when the overwrite prompt for the very path it writes is declined "
+         "and reachable when accepted; that every CLI call site passes "
+         "confirm_overwrite = not args.no_warnings; and that the prompt "
+         "accepts exactly the key 'y'. The property is a conjunction over "
+         "writers and call sites, which a who-may-write / must-pass-through "
+         "analysis covers completely, including all writers no test runs.",
+    note="Trusted: os.path.isfile, input(), the table of file-creating "
+         "library calls (thorough tier lists every save/write-like call it "
+         "does not know); rosbag export and evo_fig --to_html / evo_ipython "
+         "are exempt by name with reasons. Byte-for-byte content of written "
+         "files is not examined.",
+    technique="call-graph-wide sink inventory + guard dominance by 3-valued "
+              "folding of path conditions from an AST abstract interpreter; "
+              "argument provenance at call sites",
+)
 UNDECIDED = [
     "behaviour of os.path.isfile / input / the file-writing library calls "
     "themselves (trusted)",
